@@ -86,6 +86,7 @@ func scenarioC13(r *Run) {
 	type fwd struct {
 		at   int64
 		si   *sessInfo
+		cpseid uint64 // the control plane's SEID of the session when the report was made
 	}
 	var expected []fwd
 	notifierLast := map[uint64]int64{}
@@ -155,13 +156,13 @@ func scenarioC13(r *Run) {
 		if target != nil {
 			class = fmt.Sprintf("notify=%v live=%v", target.notify, target.live)
 			if forward && target.live && target.notify {
-				expected = append(expected, fwd{now, target})
+				expected = append(expected, fwd{now, target, target.s.CPSEID})
 				seenFirst[target] = true
 			}
 			if !forward && target.live && target.notify && !seenFirst[target] {
 				// the model itself (keyed by F-SEID like the agent) suppresses the first
 				// report of a session that inherited an old F-SEID: the property forbids it
-				expected = append(expected, fwd{now, target})
+				expected = append(expected, fwd{now, target, target.s.CPSEID})
 				seenFirst[target] = true
 				r.Probe("first-report-of-session-with-reused-fseid")
 			}
@@ -172,6 +173,19 @@ func scenarioC13(r *Run) {
 			r.Fault("report-within-interval")
 		}
 		r.Sim.RunFor(20 * time.Millisecond)
+		// occasionally the control plane moves a session to a new CP F-SEID (with or
+		// without touching a rule): later reports are addressed with the new one
+		if r.Ch.Choose(10, "new-cp-fseid") == 1 && target != nil && target.live {
+			m := &ModSpec{Tag: "newCPSEID", NewCPSEID: p.NewCPSEID()}
+			if r.Ch.Choose(2, "with-far") == 1 {
+				f := *target.s.FAR(1)
+				m.UpdateFAR = append(m.UpdateFAR, &f)
+				m.Tag = "newCPSEID+uF"
+			}
+			res := p.Modify(target.s, m)
+			r.Op("session up=%d moved to CP SEID %d (%s) -> accepted=%v", target.s.UPSEID, m.NewCPSEID, m.Tag, res.Accepted)
+			r.Skel("cpseid:" + m.Tag)
+		}
 		// occasionally delete a session / create a new one (SEID reuse when the PRNG repeats)
 		if r.Ch.Choose(10, "churn") == 1 && target != nil && target.live {
 			if res := p.Delete(target.s); res.Accepted {
@@ -243,8 +257,8 @@ func scenarioC13(r *Run) {
 			return
 		}
 		gi++
-		if srr.SEID() != e.si.s.CPSEID {
-			r.Violate("C13", "wrong-seid", "Session Report Request addressed with SEID %d, the control plane's SEID of the session is %d (UP SEID %d)", srr.SEID(), e.si.s.CPSEID, e.si.s.UPSEID)
+		if srr.SEID() != e.cpseid {
+			r.Violate("C13", "wrong-seid", "Session Report Request addressed with SEID %d, the control plane's SEID of the session was %d at that time (UP SEID %d)", srr.SEID(), e.cpseid, e.si.s.UPSEID)
 			return
 		}
 		if srr.ReportType == nil || !srr.ReportType.HasDLDR() {
